@@ -95,6 +95,10 @@ def gaussian_joint(A):
     return dic, joint, params
 
 
+def diagW_A(dic):
+    return "mvn" not in dic
+
+
 def set_q(params, q):
     import torch
     k = 0
@@ -161,6 +165,28 @@ def check_case(ctx: Ctx, em):
     if any(abs(a - b) > 1e-11 * max(1, abs(b)) for a, b in zip(bq + bp, q0 + [-v for v in p0])):
         ctx.violation("C16:integrator:reversibility", f"{tag}: integrating, negating the momentum and integrating again gives ({bq}, {bp}), expected ({q0}, {[-v for v in p0]})",
                       {"case": c})
+        return
+    # history independence (Leapfrog.tla: HistoryFree): the parameters sit where the integrator left them (~ q0); another operator
+    # moves the target's location to m = q0 - q1, so that in the target's frame the position is q1; the same integrator object,
+    # called again on the same objects with momentum -p1, must give the reversed first trajectory translated by m
+    m = [a - b for a, b in zip(q0, q1)]
+    if diagW_A(dic):
+        for i in range(d):
+            dic[f"n{i}.loc"].tensor = torch.tensor([m[i]])
+    else:
+        dic["mvn.loc"].tensor = torch.tensor(m)
+    try:
+        ph = integ(joint, params, torch.tensor([-v for v in p1]), Wt)
+    except Exception as e:
+        ctx.violation("C16:integrator:second-call-raises", f"{type(e).__name__}: {e} (after the target moved)", {"case": c})
+        return
+    hq, hp = get_q(params), [float(v) for v in ph.tolist()]
+    want = [a + b for a, b in zip(q0, m)] + [-v for v in p0]
+    ctx.add("history_free_replays")
+    if any(abs(a - b) > 1e-10 * max(1, abs(b)) for a, b in zip(hq + hp, want)):
+        ctx.violation("C16:integrator:history-dependent", f"{tag}: a trajectory started where the previous one ended, after the target's location moved to {m}, "
+                      f"ends at ({hq}, {hp}); the exact leapfrog map under the moved target gives ({want[:d]}, {want[d:]})", {"case": c})
+        return
     ctx.add("traces_validated_against_impl")
 
 
@@ -377,7 +403,7 @@ def run(ctx: Ctx):
     cases = lattice(ctx.tier)
     d = tlc.workdir("c16")
     t, c = tlc.write_mc(d, "MC_Leapfrog", "Leapfrog", {"Cases": "{" + ",\n ".join(case_tla(x) for x in cases) + "}", "Emit": "FALSE"},
-                        ["SPECIFICATION Spec", "INVARIANT Reversible", "INVARIANT VolumePreserving"])
+                        ["SPECIFICATION Spec", "INVARIANT Reversible", "INVARIANT VolumePreserving", "INVARIANT HistoryFree"])
     res = tlc.run(t, c, workers=16, tag="c16", timeout=1500)
     ctx.tlc(res, f"Leapfrog: {len(cases)} lattice cases")
     if res.violations:
